@@ -811,8 +811,8 @@ func (g *gram) stmt(depth int) {
 	case x < 68 && depth < 2 && g.loops < 2: // counted loop, counter on the stack
 		g.loops++
 		n := uint64(1 + r.Intn(6))
-		if r.Intn(10) == 0 {
-			n = uint64(50 + r.Intn(400))
+		if r.Intn(25) == 0 {
+			n = uint64(50 + r.Intn(250))
 		}
 		a.pushU(n)
 		l := a.newLabel()
